@@ -196,23 +196,26 @@ def immutable_ok(node):
 def r02_5(rep, mod, rule='R02.5'):
     sb = find_def(mod, 'SpecificationBase')
     ms = methods_of(sb)
+    from . import sem as _sem
+
+    def only_returns(fn, want, site, text):
+        ss_ = _sem.normal(_sem.summaries(fn))
+        got = sorted({_sem.nt(ps.ret) for ps in ss_})
+        other = sorted({_sem.nt(e.r) for ps in ss_ for e in ps.events
+                        if not (e.kind == 'call' and _sem.nt(e.r) in want[1:])})
+        ok = bool(ss_) and got == [want[0]] and not other
+        rep.check(rule, site, ok, text if ok else
+                  {'returns': got, 'other effects': other[:2]}, node=fn)
     f = ms['isOrExtends']
     p = shared.params(f)[1]
-    rets = [n for n in walk_local(f) if isinstance(n, ast.Return)]
-    ok = len(rets) == 1 and match('%s in self._implied' % p, rets[0].value) is not None
-    rep.check(rule, 'SpecificationBase.isOrExtends', ok,
-              'returns %s' % [norm_src(r.value) for r in rets], node=f)
+    only_returns(f, ['%s in self._implied' % p], 'SpecificationBase.isOrExtends',
+                 'isOrExtends = membership in the implied set')
     for nm, fn in (('providedBy', 'providedBy'), ('implementedBy', 'implementedBy')):
         f = ms[nm]
         p = shared.params(f)[1]
-        rets = [n for n in walk_local(f) if isinstance(n, ast.Return)]
-        ok = len(rets) == 1 and match('self in $s._implied', rets[0].value) is not None
-        if ok:
-            sp = resolve_local(f, match('self in $s._implied', rets[0].value)['s'])
-            ok = match('%s(%s)' % (fn, p), sp) is not None
-        rep.check(rule, 'SpecificationBase.' + nm, ok,
-                  'returns self in %s(%s)._implied: %s' % (
-                      fn, p, [norm_src(r.value) for r in rets]), node=f)
+        only_returns(f, ['self in %s(%s)._implied' % (fn, p), '%s(%s)' % (fn, p)],
+                     'SpecificationBase.' + nm,
+                     'returns self in %s(%s)._implied' % (fn, p))
     v = class_attr_assign(sb, '__call__')
     rep.check(rule, 'SpecificationBase.__call__',
               v is not None and dotted(v) == 'isOrExtends',
